@@ -340,9 +340,16 @@ func Clients() *runner.ExtraResult {
 			if pre := rt.take(); len(pre) != 0 {
 				viol(fmt.Sprintf("%s NewClient %s sends requests", pkg, nsTag), fmt.Sprintf("%s.NewClient(cs, %q) sent %d requests, first %s %s", pkg, ns, len(pre), pre[0].Method, pre[0].Path))
 			}
-			for _, verb := range []string{"list", "watch"} {
+			// every call is made twice on the same client (a controller relists and reconnects through one client):
+			// the second request must be as clean as the first
+			for _, call := range []string{"list", "watch", "watch#2", "list#2"} {
 				res.Distinct++
-				id := fmt.Sprintf("%s %s %s", pkg, verb, nsTag)
+				id := fmt.Sprintf("%s %s %s", pkg, call, nsTag)
+				verb := strings.TrimSuffix(call, "#2")
+				rv := "42"
+				if call == "watch#2" {
+					rv = "43"
+				}
 
 				expPath := exp.prefix
 				if verb == "watch" {
@@ -358,7 +365,7 @@ func Clients() *runner.ExtraResult {
 				expPath += "/" + exp.resource
 				expQuery := url.Values{}
 				if verb == "watch" {
-					expQuery = url.Values{"watch": {"true"}, "resourceVersion": {"42"}}
+					expQuery = url.Values{"watch": {"true"}, "resourceVersion": {rv}}
 				}
 
 				var callErr error
@@ -375,7 +382,7 @@ func Clients() *runner.ExtraResult {
 						}
 					}
 				case "watch":
-					w, err := c.Watch(ctx, metav1.ListOptions{ResourceVersion: "42", Watch: true})
+					w, err := c.Watch(ctx, metav1.ListOptions{ResourceVersion: rv, Watch: true})
 					callErr = err
 					if w != nil {
 						gotType = reflect.TypeOf(w)
